@@ -313,7 +313,7 @@ package rpc
 //@   modifies q.length
 
 //@ func (*Transport).getConn
-//@   property C13 C14
+//@   property C13 C14 C15
 //@   requires t != nil
 //@   ensures implies(len(addr) == 0, pc == nil && err == ErrDial)
 //@   ensures implies(err == nil, pc != nil && gf_addr(pc) == sid(addr))
@@ -447,11 +447,13 @@ package rpc
 //@ func (*Client).Close
 //@   property C18 C20
 //@   requires c != nil
+//@   ensures [C20 C18] c.closed != 0
 //@   loop 1: invariant drainInv(c.pending) && c.closed == 1
 
 //@ func (*Client).Update
 //@   property C16
 //@   requires c != nil
+//@   ensures [C16] fresh(c.targets) && len(c.list) == 0 && len(c.minHeap) == 0
 //@   loop 1: invariant m != nil && fresh(m) && forallkey(k, m, m[k] != nil && sid(m[k].address) == k && k != 0)
 
 //@ iface RoundTripper.Close
@@ -592,7 +594,7 @@ package rpc
 //@   property C15
 //@   requires conn != nil
 //@   ghostset gb_sawIdle(conn) = (n == 0)
-//@   ensures true
+//@   ensures [C15] n >= uint64(len(conn.pending)) && n >= uint64(len(conn.streams)) && (n == uint64(len(conn.pending)) || n == uint64(len(conn.streams)))
 
 //@ observe Conn.closing as sawClosing
 //@ func (*Conn).Close
@@ -613,8 +615,8 @@ package rpc
 //@ field upgradeBufferPool: pool []byte
 //@ field eventPool: pool *event
 //@ tokentable Conn.pending tok slot [C02]
-//@ field Call.Error: owned tok [C02 C19]
-//@ field Call.Value: owned tok [C02 C19]
+//@ field Call.Error: owned tok [C02 C19 C08]
+//@ field Call.Value: owned tok [C02 C19 C08]
 
 //@ iface ClientCodec.WriteRequest
 //@   params codec, ctx, param
@@ -625,7 +627,7 @@ package rpc
 //@ func (*Call).done
 //@   property C02
 //@   requires call != nil
-//@   requires [C02] gf_tok(call) == 2 || gb_internal(call)
+//@   requires [C02 C08] gf_tok(call) == 2 || gb_internal(call)
 //@   ghostset gf_tok(call) = ite(gb_internal(call), gf_tok(call), 0)
 //@   ghostset gg_dones() = gg_dones() + 1
 
@@ -715,7 +717,7 @@ package rpc
 //@ pure unswept(c *Call, k uint64) bool = (gf_tok(c) == 1 || gb_internal(c)) && implies(gf_tok(c) == 1 && !gb_internal(c), gv_slot(c) == k)
 
 //@ func (*Conn).recv
-//@   property C02 C03 C08 C20
+//@   property C02 C03 C08 C14 C20
 //@   requires conn != nil && conn.bufferPool != nil && implies(!conn.directIO, !isnil(conn.readStream))
 //@   requires !gb_swept(conn)
 //@   loop 1: invariant !gb_swept(conn)
@@ -914,6 +916,7 @@ package rpc
 //@   ghostset gg_wmsg() = gg_wmsg() + 1
 //@ iface Codec.Marshal
 //@   params c, buf, v
+//@   ghostset gg_cmarshal() = gg_cmarshal() + 1
 //@   ensures len(result0) <= 1<<40
 //@ iface Codec.Unmarshal
 //@   params c, data, v
@@ -945,6 +948,8 @@ package rpc
 //@   atcall socket.Messages.WriteMessage#1: [C07 C01 C06] implies(isnil(c.headerEncoder), respWire(arg0, reqSeq, ctx.Error, reply))
 //@   ensures [C04] gg_wmsg() <= old(gg_wmsg()) + 1
 //@   ensures [C07 C04] implies(isnil(c.headerEncoder) && old(c.closed) == 0, gg_wmsg() == old(gg_wmsg()) + 1)
+//@   ensures [C04 C06] implies(!isnil(c.headerEncoder) && old(c.closed) == 0 && len(old(ctx.Error)) == 0 && old(ctx.upgrade.NoResponse) != 1, gg_cmarshal() == old(gg_cmarshal()) + 2)
+//@   ensures [C04 C06] implies(!isnil(c.headerEncoder) && old(c.closed) == 0 && !(len(old(ctx.Error)) == 0 && old(ctx.upgrade.NoResponse) != 1), gg_cmarshal() == old(gg_cmarshal()) + 1)
 
 //@ field serverCodec.closed: quiescent
 //@ field clientCodec.closed: quiescent
@@ -1127,6 +1132,9 @@ package rpc
 //@   guards Server.codecs, Map<map[ServerCodec]io.Closer>
 //@   invariant self.codecs != nil
 
+//@ extern sync.(*WaitGroup).Wait
+//@   params wg
+//@   ghostset gg_wgwait() = gg_wgwait() + 1
 //@ func (*Server).ServeCodec
 //@   property C04 C08 C10 C20
 //@   requires srvOK(server) && !isnil(codec)
@@ -1135,6 +1143,7 @@ package rpc
 //@   loop 2: invariant streamsOK(streams) && forall(i, 0, rangeidx(), streams[rangekey(i)].stream.closed == 1)
 //@   atcall scheduler.Scheduler.Close#2: [C10] forallkey(s, streams, streams[s].stream.closed == 1)
 //@   ensures [C20] gg_scodecClose() == old(gg_scodecClose()) + 1
+//@   atcall ServerCodec.Close#1: [C04 C20] gg_wgwait() == old(gg_wgwait()) + 1
 //@ func (*Server).ServeCodec$1
 //@   property C04 C05 C08
 //@   requires srvOK(server) && ctxOK(ctx) && streamsOK(streams) && !gb_registered(ctx)
@@ -1150,6 +1159,7 @@ package rpc
 //@   loop 1: invariant sctxOK(svrctx) && gg_scodecClose() == old(gg_scodecClose()) + 1 && forall(i, 0, rangeidx(), svrctx.streams[rangekey(i)].stream.closed == 1)
 //@   atcall (*Server).ServeRequest#1: [C05] holdsptr(svrctx.recving)
 //@   atcall scheduler.Scheduler.Schedule#1: [C05] holdsptr(svrctx.recving)
+//@   atcall ServerCodec.Close#1: [C04 C20] gg_wgwait() == old(gg_wgwait()) + 1
 //@   ensures [C10 C20] implies(gg_scodecClose() == old(gg_scodecClose()) + 1, forallkey(s, context.(*ServerContext).streams, context.(*ServerContext).streams[s].stream.closed == 1))
 //@ func (*Server).listen$3$1
 //@   property C04 C05 C08
@@ -1175,6 +1185,7 @@ package rpc
 //@   loop 3: invariant tInv(t) && forall(k, rangeidx(), rangen(), has(t.idleConns, rangekey(k)))
 //@   loop 4: invariant tInv(t) && t.running && forall(k, rangeidx(), rangen(), has(t.idleConns, rangekey(k))) && cq != nil && sid(cq.addr) == rangekey(rangeidx()-1) && has(t.idleConns, sid(cq.addr)) && t.idleConns[sid(cq.addr)] == cq && 0 <= i && i <= length && length - i == cq.length
 //@   atcall (*Conn).Close#1: [C15] gb_sawIdle(pc.Conn)
+//@   atcall delete#1: [C13 C15] len(cs.Conns) == 0
 //@   atcall delete#2: [C20 C15] cq.length == 0
 //@ func (*Transport).Close
 //@   property C13 C15 C20
@@ -1211,6 +1222,8 @@ package rpc
 //@   loop 3: invariant tInv(t) && t.running && forall(k, rangeidx(), rangen(), has(t.conns, rangekey(k))) && cs != nil && sid(cs.addr) == rangekey(rangeidx()-1) && has(t.conns, sid(cs.addr)) && t.conns[sid(cs.addr)] == cs && 0 <= i && i <= length && length == len(cs.Conns)
 //@   loop 4: invariant tInv(t) && forall(k, rangeidx(), rangen(), has(t.idleConns, rangekey(k)))
 //@   loop 5: invariant tInv(t) && t.running && forall(k, rangeidx(), rangen(), has(t.idleConns, rangekey(k))) && cq != nil && sid(cq.addr) == rangekey(rangeidx()-1) && has(t.idleConns, sid(cq.addr)) && t.idleConns[sid(cq.addr)] == cq && 0 <= i && i <= length && length - i <= cq.length
+//@   atcall delete#1: [C13 C15] len(cs.Conns) == 0
+//@   atcall delete#2: [C13 C15] cq.length == 0
 //@   atcall (*Conn).Close#1: [C15] gb_sawIdle(pc.Conn)
 
 //@ lockinv Server.mut
